@@ -489,6 +489,23 @@ func runCoreScripted(seed uint64, n int, out *Out) {
 			c.endBlock()
 			c.endBlock()
 		},
+		// 13: settlement of one market spread over several blocks (batch sizes 1): the losing bet is settled first, then the
+		//     depositor withdraws all that is withdrawable while the winning bet is still pending, then the winner is paid:
+		//     the worst-case loss stays locked until the participation itself is settled
+		func(h int) {
+			c := newCoreScript(out, h, 100, 0, 2, 1, 0, 1, 1)
+			m := c.market(2)
+			c.deposit(m, 1, 10000)
+			c.wager(m, 6, 0, "2", 1001)
+			c.wager(m, 7, 1, "3", 501)
+			c.endBlock()
+			c.resolve(m, 5, 1)
+			c.endBlock()
+			c.withdraw(m, 1, 1, 1, 0)
+			c.endBlock()
+			c.endBlock()
+			c.endBlock()
+		},
 	}
 	for h, f := range scripts {
 		if skipHist(h) {
